@@ -45,9 +45,9 @@ func (h *c17Handler) HandleMessage(ctx context.Context, p MessagePayload) {
 
 func VerifHarness_C17_ids() {
 	ctx := context.Background()
-	nMsgs := 4
+	nMsgs := 3
 	if verifrt.Thorough() {
-		nMsgs = 6
+		nMsgs = 4
 	}
 	c := &RemoteClient{
 		addRequestsChannel:     make(chan *request, 100),
@@ -77,29 +77,64 @@ func VerifHarness_C17_ids() {
 		go c.runRequests(ctx, interrupt)
 	}
 
+	// constructor state (NewRemoteClient): first expected id is 1, handshake not complete
+	c.nextMessageID.Store(uint64(1))
+	expected := uint64(1)
+	lastDelivered := uint64(0)
+	var want []c17Event
+
+	// Ready is declared at once or, on a Choose, one message into the connection (a message that
+	// reaches the client before it declared ready is still subject to the id gate); the same after
+	// a reconnect.
 	id0 := verifrt.U64("ready.id")
 	verifrt.Assume(id0 < 1<<62) // wrap-around of the id is outside the statement
-	err := c.Ready(ctx, id0)
-	verifrt.Assert(err == nil, "C17.ready.ok")
-	expected := id0
-	if id0 == 0 {
-		expected = 1
-	}
-	verifrt.Sig("Ready", "next-id")
-	verifrt.Assert(c.NextMessageID() == expected, "C17.next-id.after-ready")
-
-	reconnectAt := verifrt.Choose("reconnect-at", nMsgs+1) // nMsgs = never
-	var want []c17Event
-	lastDelivered := expected - 1
-	for s := 0; s < nMsgs; s++ {
-		if s == reconnectAt {
-			// connection lost and re-established: the client declares ready with the value it reports
-			next := c.NextMessageID()
-			err := c.Ready(ctx, next)
-			verifrt.Assert(err == nil, "C17.ready.ok")
+	readyPending := true
+	readyDelay := verifrt.Choose("ready-after-msgs", 2)
+	reconnected := false
+	declareReady := func() {
+		next := id0
+		if reconnected {
+			// the client declares ready with the value it reports
+			next = c.NextMessageID()
+		}
+		err := c.Ready(ctx, next)
+		verifrt.Assert(err == nil, "C17.ready.ok")
+		if !reconnected {
+			expected = id0
+			if id0 == 0 {
+				expected = 1
+			}
+			lastDelivered = expected - 1
+			verifrt.Sig("Ready", "next-id")
+			verifrt.Assert(c.NextMessageID() == expected, "C17.next-id.after-ready")
+		} else {
 			verifrt.Sig("Reconnect", "next-id")
 			verifrt.Assert(c.NextMessageID() == expected, "C17.next-id.survives-reconnect")
 			verifrt.Reach("C17.reconnected")
+		}
+		readyPending = false
+	}
+
+	reconnectAt := verifrt.Choose("reconnect-at", nMsgs+1) // nMsgs = never
+	for s := 0; s < nMsgs; s++ {
+		if s == reconnectAt && !readyPending {
+			// connection lost and re-established: runConnection resets the per-connection
+			// handshake state, the server accepts again, and Ready follows now or one message
+			// later.
+			c.accepted.Store(false)
+			c.handshakeComplete.Store(false)
+			c.accepted.Store(true)
+			reconnected = true
+			readyPending = true
+			readyDelay = verifrt.Choose("ready-after-msgs", 2)
+		}
+		if readyPending {
+			if readyDelay == 0 {
+				declareReady()
+			} else {
+				readyDelay--
+				verifrt.Reach("C17.msg.before-ready")
+			}
 		}
 		kind := verifrt.Choose("msg.kind", 5)
 		var m *Message
